@@ -592,27 +592,61 @@ def compose_rule(P, E, H):
     1-based convention); all(p) filters with exactly the negation of p; start_with emits its prefix
     before it subscribes the source."""
     r = RuleResult("D-compose2", "compositions: element_at(n) = take(n).last(); all(p) = filter(!p).take(1) ..; start_with = prefix, then the source")
-    # element_at
+    # element_at(n) = take(n) then skip(n - 1): the n-th item (1-based) is what is left, a shorter source leaves
+    # nothing.  (take(n).last() - the shape this crate had - hands on the LAST item of a shorter source.)
     nb = P.body("operators::element_at::ElementAt::new")
     eb = P.body("operators::element_at::ElementAt::execute")
     if nb is None or eb is None:
         r.error("D-compose2: anchor missing: ElementAt::new / execute")
     else:
-        calls = [c for c in nb.calls if c.path.endswith("operators::take::Take::new")]
-        r.instance(("operators::element_at::ElementAt", "take(n)"), True, "%d Take::new call(s)" % len(calls))
-        if len(calls) != 1:
-            r.violate(("operators::element_at::ElementAt", "not built on take"), "ElementAt::new does not build exactly one Take", body=nb)
-        for c in calls:
+        root = "operators::element_at::ElementAt"
+        takes = [c for c in nb.calls if c.path.endswith("operators::take::Take::new")]
+        skips = [c for c in nb.calls if c.path.endswith("operators::skip::Skip::new")]
+        r.instance((root, "take(n)"), True, "%d Take::new, %d Skip::new call(s)" % (len(takes), len(skips)))
+        if len(takes) != 1:
+            r.violate((root, "not built on take"), "ElementAt::new does not build exactly one Take", body=nb)
+        for c in takes:
             prov = nb.operand_prov(c.args[0])
             if prov != frozenset([("param", 1, ())]):
-                r.violate(("operators::element_at::ElementAt", "take count is not the index itself"),
-                          "element_at(n) must be take(n).last() (1-based, as the crate's asserted test pins it): the count handed to "
+                r.violate((root, "take count is not the index itself"),
+                          "element_at(n) must keep the first n items (1-based, as the crate's asserted test pins it): the count handed to "
                           "Take::new is %s, not the parameter unchanged" % sorted(nb.term_name(t) for t in nb.value_sources(prov)), body=nb, line=c.line)
-        lasts = [c for b in [eb] + P.descendants(eb) for c in b.calls if c.local and c.name == "last"]
-        firsts = [c for b in [eb] + P.descendants(eb) for c in b.calls if c.local and c.name in ("first", "take_last", "skip", "skip_last")]
-        r.instance(("operators::element_at::ElementAt", "last()"), True, "%d last() call(s)" % len(lasts))
-        if len(lasts) != 1 or firsts:
-            r.violate(("operators::element_at::ElementAt", "not take(n).last()"), "ElementAt::execute does not end its chain in exactly one last()", body=eb)
+        scope = [eb] + P.descendants(eb)
+        lasts = [c for b in scope for c in b.calls if c.local and c.name in ("last", "take_last")]
+        r.instance((root, "tail selection"), True, "%d last()/take_last call(s), %d Skip" % (len(lasts), len(skips)))
+        if lasts:
+            r.violate((root, "selects the last of what take kept"),
+                      "element_at(n) ends in last(): for a source with fewer than n items that is the source's last item, not `nothing`",
+                      body=eb, line=lasts[0].line)
+        elif len(skips) != 1:
+            r.violate((root, "not take(n) then skip(n-1)"), "ElementAt does not drop the first n-1 of the n items it keeps", body=nb)
+        for c in skips:
+            ok = False
+            a = c.args[0]
+            for t in nb.operand_prov(a):
+                if t[0] == "ret":
+                    k = nb.call_at(t[1])
+                    if k is not None and k.path.split("::")[-1] in ("saturating_sub", "wrapping_sub") and len(k.args) == 2 and \
+                            nb.operand_prov(k.args[0]) == frozenset([("param", 1, ())]) and k.args[1].get("int") == 1:
+                        ok = True
+                if t[0] == "val":
+                    rv = nb.blocks[t[1][0]]["stmts"][t[1][1]]["rv"]
+                    if rv.get("k") == "binop" and rv.get("op", "").startswith("Sub") and rv["b"].get("int") == 1 and \
+                            nb.operand_prov(rv["a"]) == frozenset([("param", 1, ())]):
+                        ok = True
+                if t[0] == "agg" or (t[0] == "val" and not ok):
+                    # count - 1 through the checked-subtraction tuple
+                    for leaf in nb.value_sources([t]):
+                        pass
+            if not ok:
+                # `count - 1` in a debug build: (SubWithOverflow(count, 1)).0
+                leaves = nb.value_sources(nb.operand_prov(a))
+                consts = [l for l in leaves if l[0] == "const"]
+                params = [l for l in leaves if l[0] == "param" and l[1] == 1]
+                ok = len(params) == 1 and len([l for l in leaves if l[0] not in ("const", "param")]) == 0 and \
+                    any(str(cn[1]).startswith("1_") or str(cn[1]) == "1" for cn in consts)
+            if not ok:
+                r.violate((root, "skip count is not n - 1"), "element_at(n) must drop exactly n - 1 of the first n items", body=nb, line=c.line)
     # all: the closure handed to Filter::new returns the negation of the user's predicate
     ab = P.body("operators::all::All::new")
     if ab is None:
